@@ -10,7 +10,7 @@ from ..runner import Sub, expect
 from ..wk import FREE, HIDDEN, Attrs, apply_attrs, fixed_of, free_of  # noqa: F401
 from . import c11
 
-RULE = ("Generated: a delegation history (C11 generator), a key of it, and one probe: (a) a ciphertext attribute list that differs "
+RULE = ("Generated: a delegation history (C11 generator), a key of it, and one probe (every probe ciphertext of kind (a) is also compared, component by component, with (msg*e(g1,g2)^s, g^s, (g3*prod h^v)^s) for the exponent s drawn from the stream): (a) a ciphertext attribute list that differs "
         "from the key's pattern in exactly one slot - other value, extra slot set, fixed slot missing - or is equivalent modulo r / "
         "identical (these must decrypt); (b) an attempt to give a value to a hidden slot of the key through qualifykey, "
         "nondelegable_qualifykey or adjust_nondelegable followed by decryption of a ciphertext with that slot set; (c) a single-component "
